@@ -28,7 +28,7 @@ m = {
     'checks': [],
     'not_applicable': [],
     'notes': 'Every check is `./check <id>`: exit 0 = all obligations discharged, 1 = VIOLATION, 2 = undecided '
-             '(lost anchor, unsupported construct, resource limit, vacuous contract) which is never an alarm.',
+             '(lost anchor, unsupported construct, resource limit, vacuous contract) which is never an alarm. Next to the proof every quick check runs a bounded native search of the real crate (differential runs, strace call traces, crash / fault / deletion injection; listed under coverage.bounded, never counted as proved), which can only add a VIOLATION with a concrete failing input.',
 }
 for pid in ids:
     if pid in props.PROPS:
